@@ -197,6 +197,17 @@ def shape_programs() -> list[dict[str, Any]]:
     P("exchange_error_first", [_exch("e0", [_R("", "UserBoom")], header=True)], [{"m": "e0", "args": {}, "inputs": ins[:2], "end": "close"}])
     P("exchange_init_raise_hdr", [_exch("e0", [_E()], header=True, init={"logs": _L("il"), "act": ("raise", "ArrowInvalid", "bad init")})], [{"m": "e0", "args": {}, "inputs": ins[:1], "end": "close"}])
     P("exchange_multi_col", [_exch("e0", [_E(logs=_L("m"))], cols=["s", "f", "i"])], [{"m": "e0", "args": {}, "inputs": [svcgen.make_rows("in", k, 2, ["s", "f", "i"]) for k in range(3)], "end": "close"}])
+    # exchange whose output passes the input's columns through in another order (the reply references the
+    # input's buffers until it is written), several turns, batches of a few KiB up to a few hundred KiB
+    ac = ["s", "f", "i", "b"]
+    alias = _exch("e0", [_E(logs=_L("a"))], cols=ac)
+    alias["alias"] = True
+    alias["out_cols"] = ["i", "b", "s", "f"]
+    P(
+        "exchange_alias_reorder",
+        [alias],
+        [{"m": "e0", "args": {}, "inputs": [svcgen.make_rows("in", k, r, ac, pad) for k, (r, pad) in enumerate([(3, 0), (40, 100), (7, 3000), (200, 1500), (2, 10)])], "end": "close"}],
+    )
     # mixed sequence on one connection: stream outcomes followed by unary calls
     P(
         "mixed_sequence",
@@ -230,6 +241,11 @@ def gen_programs(seed: int, n: int) -> list[dict[str, Any]]:
     for i in range(n):
         p = svcgen.gen_program(rng)
         p["tag"] = f"gen{i}"
+        arng = random.Random(f"C01alias:{seed}:{i}")
+        for m in p["methods"]:
+            if m["kind"] == "exchange" and len(m["in_cols"]) >= 2 and arng.random() < 0.5:
+                m["alias"] = True
+                m["out_cols"] = arng.sample(m["in_cols"], len(m["in_cols"]))
         out.append(p)
     return out
 
